@@ -174,6 +174,9 @@ def worker(args):
         small = sx.shrink(hist, lambda h: (lambda y: all(o[0] == 'ok' for o in y.obs) and bool(problems(y, h)))(run_cfg(h)))
         bad2 = problems(run_cfg(small), small) or bad
         sig = 'before=%s after=%s|%s|%s' % (before, after, sx.kinds(small), '; '.join(bad2))
+        if list(bad2) == ['INSERT without before_insert'] and any(op[0] == 'objflush' for op in small):
+            # one defect, one name: obj.flush() saves the created objects obj refers to (its principals) without their hook
+            sig = 'obj.flush()|principal-object-saved|INSERT without before_insert'
         presigs[pre] = sig
         sub.violation(sig, dict(before=before, after=after, fixture=fixture, history=small, events=events(run_cfg(small))), '; '.join(bad2))
     CFG.update(before='nothing', after='nothing')
